@@ -7,6 +7,11 @@ proof side    : Props/C07.lean (findSpan_some_correct, findSpan_unique, basis_su
                 Props/C07Gen3.lean (tie by translation of the uniform-cubic kernels, Generated/CubicUniformGen.lean regenerated on every
                 run: gen_cu_find_span_eq, gen_cu_basis_funs(_1st_der)_eq, gen_cu_eval_spline_1d_eq (generated = Model/CubicUniform
                 with trunc := pyInt = truncation toward zero), pyInt_spec, gen_cu_eval_eq_general_path)
+                Props/C07Gen4.lean (tie by translation of the VECTOR entry points nu_eval_spline_1d_vector / cu_eval_spline_1d_vector,
+                Generated/EvalVectorGen.lean regenerated on every run; they duplicate the loops of the scalar kernels and share one
+                `basis` array: gen_nu_eval_vector_eq / gen_cu_eval_vector_eq (for every k < len(x) the vector function writes exactly
+                what the generated scalar evaluation returns at x[k], nothing beyond, der in {0,1}), gen_nu_eval_vector_total,
+                gen_cu_eval_vector_model (= the models), gen_*_other_der (der not in {0,1}: y untouched))
 correspondence: every public entry point of pygyro/splines (Spline1D.eval scalar/array, eval_vector, BSplines[i],
                 Spline2D.eval scalar/cross, eval_vector, all (der1,der2)) and the raw nu_* / cu_* kernels, against the
                 exact-rational Lean models (Drivers/C07.lean); floats compared through common.close with the running
@@ -828,7 +833,9 @@ def run(chk):
     common.run_translator(chk, 'translate_pure.py', '--only', 'eval1d')
     # Props/C07Gen3.lean: the uniform-cubic kernels (Generated/CubicUniformGen.lean, `int(x)` = truncation toward zero)
     common.run_translator(chk, 'translate_pure.py', '--only', 'cueval')
-    chk.proof_side(build=not getattr(chk, 'no_build', False), extra_props=('C07Gen', 'C07Gen2', 'C07Gen3'))
+    # Props/C07Gen4.lean: the vector entry points (Generated/EvalVectorGen.lean), tied to the generated scalar kernels above
+    common.run_translator(chk, 'translate_pure.py', '--only', 'evalvec')
+    chk.proof_side(build=not getattr(chk, 'no_build', False), extra_props=('C07Gen', 'C07Gen2', 'C07Gen3', 'C07Gen4'))
     drv = common.LeanDriver('C07.lean')
     rng = chk.rng
     try:
